@@ -94,5 +94,42 @@ func runDirected(res *core.CaseResult, c core.CaseDesc) {
 			res.Violate("C06/spurious/whenargs/shared-with-expired-ctx",
 				"WhenArgs(A,{k:1}) without ctx closed when another subscription's ctx expired", nil)
 		}
+	case 6, 7, 8: // WhenQueue: several waiters subscribed out of tick order
+		m := mk(am.Schema{"A": {}, "B": {}, "C": {}, "D": {}})
+		var chs [3]<-chan struct{}
+		var ticks [3]am.Result
+		order := [][]int{{2, 0, 1}, {1, 2, 0}, {2, 1, 0}}[c.Seed-6]
+		early := ""
+		_, _ = m.HandlersBindMaps(nil, map[string]am.HandlerFinal{
+			"AState": func(e *am.Event) {
+				// three queued mutations with growing ticks
+				ticks[0], ticks[1], ticks[2] = m.Add1("B", nil), m.Add1("C", nil), m.Add1("D", nil)
+				for _, k := range order {
+					chs[k] = m.WhenQueue(ticks[k])
+				}
+				for k := range chs {
+					if isClosed(chs[k]) {
+						early += fmt.Sprintf(" WhenQueue(%d)", uint64(ticks[k]))
+					}
+				}
+			},
+		})
+		m.Add1("A", nil)
+		if early != "" {
+			res.Violate("C06/spurious/whenqueue/before-processed", "closed before the mutation was processed:"+early, nil)
+			return
+		}
+		for k := range chs {
+			if chs[k] == nil {
+				res.Inconclusive = "the handler did not run"
+				return
+			}
+			if !isClosed(chs[k]) {
+				res.Violate("C06/lost/whenqueue/out-of-order-subscriptions", fmt.Sprintf(
+					"WhenQueue(%d) is still open on an idle machine (queue tick %d, active %v); the waiters were subscribed in the order %v of ticks %v",
+					uint64(ticks[k]), m.QueueTick(), m.ActiveStates(nil), order, ticks), nil)
+				return
+			}
+		}
 	}
 }
